@@ -169,6 +169,11 @@ def check_minneeds(c, keys, out, fails, doc_order, stats, sfx=""):
             return nchk
         if tot_a < cap * (1 - 1e-6):
             stats["months_below_ceiling"] += 1
+            if sfx:
+                # a real run: percent_people_fed is the worst month of round 1, so every month reaches the ceiling
+                fail(fails, f"C18:min-needs-total-below-ceiling@{K_MIN}{sfx}", f"month {m}: round 1 ate {tot_a!r} in total, "
+                     f"less than the ceiling {cap!r} = KCALS_DAILY * min(percent fed, threshold) / 100", hexcase(c))
+                return nchk
         else:
             stats["months_at_ceiling"] += 1
         for k, a, g in zip(doc_order, avail, got):
